@@ -277,8 +277,9 @@ def c05_jobs(tier):
                      label="symmetric: all sorting rules, accessors, counters; second compute() with maxit 0 / another rule", deadline=200),
                 dict(harness="gen_glue", pattern=r"^gen/n5k1m3/(LargestReal|LargestMagn)/(SmallestReal|SmallestImag)/maxit[01]/ic$|^genshift/n5k1m3/LargestReal/SmallestReal/maxit[01]/|^genhist/n5k1m3/.*/maxit0/|^gen/n5k2m4/LargestReal/SmallestReal/maxit0/|^genshift/n5k2m4/LargestReal/SmallestReal/maxit0/|^genhist2/.*/maxit0/icC(/shift)?/then-.*-maxit0$|^genfull2/n3k1m3/.*-maxit0$",
                      label="general: sorting rules, accessors, counters; second compute() with maxit 0 / another rule", deadline=200)]
-    return c05_jobs("quick") + [dict(harness="sym_glue", pattern=r"^sym/n5k2m4/LargestMagn/(LargestMagn|SmallestAlge|SmallestMagn)/maxit[01]/ic$|^symshift/n5k2m4/.*/maxit[01]/", label="symmetric (5,2,4) [budgeted]", deadline=700, budget=True),
-                                dict(harness="gen_glue", pattern=r"^gen/n5k2m4/(LargestReal/SmallestReal|LargestMagn/SmallestImag)/maxit1/ic$|^genshift/n5k2m4/.*/maxit1/", label="general (5,2,4) maxit 1 [budgeted]", deadline=700, budget=True)]
+    return c05_jobs("quick") + [dict(harness="sym_glue", pattern=r"^sym/n5k2m4/LargestMagn/(LargestMagn|SmallestAlge|SmallestMagn)/maxit[01]/ic$|^symshift/n5k2m4/.*/maxit[01]/|^sym/n4k2m3/(LargestMagn|BothEnds)/(LargestMagn|SmallestAlge|SmallestMagn)/maxit1/ic$|^hist2/",
+                                     label="symmetric (5,2,4), all (4,2,3) sorting rules at maxit 1, all icC histories [budgeted]", deadline=700, budget=True),
+                                dict(harness="gen_glue", pattern=r"^gen/n5k2m4/(LargestReal/SmallestReal|LargestMagn/SmallestImag)/maxit1/ic$|^genshift/n5k2m4/.*/maxit1/|^genhist2/", label="general (5,2,4) maxit 1, all icC histories [budgeted]", deadline=900, budget=True)]
 
 
 SPECS["C05"] = dict(
